@@ -2,7 +2,7 @@
 From Coq Require Import ZArith QArith Qreals List Reals Bool.
 From Coquelicot Require Import Complex.
 From PyqspV Require Import Base.Ops Base.IntervalZ Model.QInst Model.ResponseM Model.FPSearchM Model.Checkers
-  Theory.CplxT Theory.QC Theory.CertT Theory.SupT Theory.FPSearchT Theory.FPProbT.
+  Theory.CplxT Theory.QC Theory.CertT Theory.SupT Theory.FPSearchT Theory.FPProbT Theory.FPSimT Theory.ChebDblT Theory.FPClosedT.
 Import ListNotations.
 
 (* layout: 2d phases, palindromic, entry formulas - for every d and every alpha (any oracle) *)
@@ -44,3 +44,49 @@ Theorem C18_fixed_point_from_closed_form L delta y lam : (0 <= lam <= 1)%R -> (0
   (1 - delta * delta <= 1 - delta * delta * (cheb_series (unitvec L) (y * sqrt (1 - lam)) * cheb_series (unitvec L) (y * sqrt (1 - lam))))%R.
 Proof. exact (fixed_point_from_closed_form L delta y lam). Qed.
 Print Assumptions C18_fixed_point_from_closed_form.
+
+(* ---- all overlaps at once *)
+(* the reflection sequence is, up to a unit scalar, the Wx-convention QSP product of the shifted phases *)
+Theorem C18_reflections_are_shifted_qsp (a s : C) (l : list (C * C)) :
+  Cmod (fp_amplitude OpsC Ci a s l) =
+  Cmod (m00 (Theory.RespT.Ux CR Ci a s (RtoC 0, RtoC 1) (map shiftcs l ++ [(RtoC 1, RtoC 0)]))).
+Proof. exact (fp_amplitude_modulus a s l). Qed.
+Print Assumptions C18_reflections_are_shifted_qsp.
+
+(* T_L is strictly increasing on [1, oo): y = T_{1/L}(1/delta) is the unique y >= 1 with delta T_L(y) = 1,
+   and an exactly checked rational bracket contains it *)
+Theorem C18_TL_increasing L x x' : (1 <= L)%nat -> (1 <= x <= x')%R ->
+  (x' - x <= cheb_series (unitvec L) x' - cheb_series (unitvec L) x)%R.
+Proof. exact (TL_strict_mono L x x'). Qed.
+Print Assumptions C18_TL_increasing.
+
+Theorem C18_y_bracket d delta ylo yhi : check_y_bracket d delta ylo yhi = true ->
+  forall y, (1 <= y)%R -> (Q2R delta * cheb_series (unitvec (2 * d + 1)) y = 1)%R -> (Q2R ylo <= y <= Q2R yhi)%R.
+Proof. exact (check_y_bracket_sound d delta ylo yhi). Qed.
+Print Assumptions C18_y_bracket.
+
+(* the certificate: for the phases at hand (as exact rationals), every overlap lambda in [0,1] and
+   y = T_{1/L}(1/delta), the success probability of the reflection sequence is within tol of
+   1 - delta^2 T_L(y sqrt(1-lambda))^2 *)
+Theorem C18_closed_form_certificate d phis delta ylo yhi tol :
+  check_fp_closed d phis delta ylo yhi tol = true -> check_y_bracket d delta ylo yhi = true ->
+  length phis = (2 * d)%nat /\
+  forall y, (1 <= y)%R -> (Q2R delta * cheb_series (unitvec (2 * d + 1)) y = 1)%R ->
+  forall lam, (0 <= lam <= 1)%R ->
+    (Rabs (Cmod (fp_ampR (sqrt lam) phis) * Cmod (fp_ampR (sqrt lam) phis)
+          - (1 - Q2R delta * Q2R delta *
+                 (cheb_series (unitvec (2 * d + 1)) (y * sqrt (1 - lam)) * cheb_series (unitvec (2 * d + 1)) (y * sqrt (1 - lam)))))
+    <= Q2R tol)%R.
+Proof. exact (fp_closed_form_certificate d phis delta ylo yhi tol). Qed.
+Print Assumptions C18_closed_form_certificate.
+
+(* fp_ampR at a rational a is the amplitude whose squared modulus the evaluator above encloses *)
+Theorem C18_amplitudes_agree a phis : fp_ampC a phis = fp_ampR (Q2R a) phis.
+Proof. exact (fp_ampC_is_ampR a phis). Qed.
+Print Assumptions C18_amplitudes_agree.
+
+(* Chebyshev doubling, used by the certificate to keep interval widths small (all real x) *)
+Theorem C18_chebyshev_product x m n :
+  (2 * cheb_series (unitvec m) x * cheb_series (unitvec (n + m)) x = cheb_series (unitvec (n + 2 * m)) x + cheb_series (unitvec n) x)%R.
+Proof. exact (proj1 (Tn_prod_pair x m) n). Qed.
+Print Assumptions C18_chebyshev_product.
